@@ -9,7 +9,7 @@ open Irismod Irismod.Sdk Irismod.Farm Irismod.Spec
 
 theorem stepStake_ok {s s' : State} {sender id denom amt} (h : stepStake s sender id denom amt = .ok s') :
     ∃ p s1 s2 p1 rewards debt s3,
-      validPoolId id = true ∧ getPool s id = some p ∧ p.start ≤ s.height ∧ expired s id p = false ∧ denom = p.lpt ∧
+      validPoolId id = true ∧ 0 < amt ∧ getPool s id = some p ∧ p.start ≤ s.height ∧ expired s id p = false ∧ denom = p.lpt ∧
       sendAll s sender farmAcc (nonzero [(denom, amt)]) = .ok s1 ∧
       updatePool s1 id p (amt : Int) false = (s2, .ok p1) ∧
       caclRewards p1.rules ((getFarmer s sender id).getD { locked := 0, debt := [] }) (amt : Int) = some (rewards, debt) ∧
@@ -22,6 +22,8 @@ theorem stepStake_ok {s s' : State} {sender id denom amt} (h : stepStake s sende
   unfold stepStake at h
   split at h; · cases h
   rename_i hv
+  split at h; · cases h
+  rename_i hpos
   split at h; · cases h
   rename_i p hp
   split at h; · cases h
@@ -39,7 +41,7 @@ theorem stepStake_ok {s s' : State} {sender id denom amt} (h : stepStake s sende
   split at h; · cases h
   rename_i s3 h3
   cases h
-  refine ⟨p, s1, s2, p1, rewards, debt, s3, by simpa using hv, hp, by omega, by simpa using hex, by simpa using hden, h1, hu, hc, h3, rfl⟩
+  refine ⟨p, s1, s2, p1, rewards, debt, s3, by simpa using hv, by omega, hp, by omega, by simpa using hex, by simpa using hden, h1, hu, hc, h3, rfl⟩
 
 theorem stepHarvest_ok {s s' : State} {sender id} (h : stepHarvest s sender id = .ok s') :
     ∃ p f s1 p1 rewards debt s2,
@@ -70,7 +72,7 @@ theorem stepHarvest_ok {s s' : State} {sender id} (h : stepHarvest s sender id =
 
 theorem stepUnstake_ok {s s' : State} {sender id denom amt} (h : stepUnstake s sender id denom amt = .ok s') :
     ∃ p f s1 p1 s2 rewards debt s3,
-      validPoolId id = true ∧ getPool s id = some p ∧ denom = p.lpt ∧ getFarmer s sender id = some f ∧
+      validPoolId id = true ∧ 0 < amt ∧ getPool s id = some p ∧ denom = p.lpt ∧ getFarmer s sender id = some f ∧
       amt ≤ f.locked ∧ amt ≤ p.locked ∧
       unstakePool s id p amt = (s1, .ok p1) ∧
       sendAll s1 farmAcc sender (nonzero [(denom, amt)]) = .ok s2 ∧
@@ -84,6 +86,8 @@ theorem stepUnstake_ok {s s' : State} {sender id denom amt} (h : stepUnstake s s
   unfold stepUnstake at h
   split at h; · cases h
   rename_i hv
+  split at h; · cases h
+  rename_i hpos
   split at h; · cases h
   rename_i p hp
   split at h; · cases h
@@ -110,7 +114,7 @@ theorem stepUnstake_ok {s s' : State} {sender id denom amt} (h : stepUnstake s s
   split at h; · cases h
   rename_i s3 h3
   cases h
-  exact ⟨p, f, s1, _, _, _, _, s3, by simpa using hv, hp, by simpa using hden, hf0, by omega, by omega, hbr, h2, hc, h3, rfl⟩
+  exact ⟨p, f, s1, _, _, _, _, s3, by simpa using hv, by omega, hp, by simpa using hden, hf0, by omega, by omega, hbr, h2, hc, h3, rfl⟩
 
 theorem stepDestroyPool_ok {s s' : State} {sender id} (h : stepDestroyPool s sender id = .ok s') :
     ∃ p, getPool s id = some p ∧ sender = p.creator ∧ p.editable = true ∧ expired s id p = false ∧
